@@ -24,6 +24,17 @@ pub open spec fn depth(t: StackTrace) -> nat
 pub open spec fn throwable_ok(o: Option<&str>, before: Throwable, after: Throwable) -> bool {
     after.message == before.message && (match o { Some(c) => after.class == c, None => after.class == before.class })
 }
+// the frames `remap_frame(f)` would yield (its contract is proved in u1/u2; abstract here)
+pub uninterp spec fn pending_frames<'x, M>(m: M, f: StackFrame<'x>) -> Seq<StackFrame<'x>>;
+pub struct PeekFrames<'a> { pub pending: Ghost<Seq<StackFrame<'a>>> }
+#[verifier::external_body]
+fn shim_peek_is_some<'a>(p: &mut PeekFrames<'a>) -> (r: bool)
+    ensures r == (old(p).pending@.len() > 0), final(p).pending@ == old(p).pending@,
+{ unimplemented!() }
+#[verifier::external_body]
+fn shim_extend_frames<'a>(v: &mut Vec<StackFrame<'a>>, p: PeekFrames<'a>)
+    ensures final(v)@ == old(v)@ + p.pending@,
+{ unimplemented!() }
 // what the (assumed) fold over the frames guarantees: nothing is dropped
 pub uninterp spec fn frames_kept(input: Seq<StackFrame>, output: Seq<StackFrame>) -> bool;
 
@@ -39,18 +50,38 @@ def build(which="mapper"):
     extract_struct(u, st, "Throwable")
     extract_struct(u, st, "StackTrace")
     u.raw(CLONE_THROWABLE, "glue")
+    from .common import CLONE_STACKFRAME
+    u.raw(CLONE_STACKFRAME, "glue")
     u.raw(MODEL, "model")
     if which == "mapper":
         src = u.source("src/mapper.rs")
         IMPL = r"impl<'s> ProguardMapper<'s>"
         ty = "ProguardMapper"
-        u.raw("pub struct ProguardMapper<'s> { pub opaque: &'s str }\n", "glue")
-        selfref = "&'s self"
+        from .common import extract_struct_priv
+        u.raw("use std::collections::HashMap;\n", "glue")
+        for nm in ("MemberMapping", "ClassMembers", "ClassMapping", "ProguardMapper"):
+            extract_struct_priv(u, src, nm)
+        ty_it = src.item("type", "MemberIter")
+        u.emit(ty_it)
+        extract_struct_priv(u, src, "RemappedFrameIter")
+        u.raw("pub uninterp spec fn iter_pending<'x>(it: RemappedFrameIter<'x>) -> Seq<StackFrame<'x>>;\n", "glue")
     else:
         src = u.source("src/cache/mod.rs")
         IMPL = r"impl<'data> ProguardCache<'data>"
         ty = "ProguardCache"
         u.raw("pub struct ProguardCache<'data> { pub opaque: &'data str }\n", "glue")
+        u.raw("pub struct RemappedFrameIter<'r, 'data> { pub opaque: &'r &'data str }\npub uninterp spec fn iter_pending<'r, 'x>(it: RemappedFrameIter<'r, 'x>) -> Seq<StackFrame<'x>>;\n", "glue")
+    itty = "RemappedFrameIter<'a>" if which == "mapper" else "RemappedFrameIter<'r, 'a>"
+    gen = "<'a>" if which == "mapper" else "<'r, 'a>"
+    u.raw("""#[verifier::external_body]
+fn shim_peekable%s(it: %s) -> (r: PeekFrames<'a>)
+    ensures r.pending@ == iter_pending(it),
+{ unimplemented!() /* it.peekable() */ }
+#[verifier::external_body]
+fn shim_extend_iter%s(v: &mut Vec<StackFrame<'a>>, it: %s)
+    ensures final(v)@ == old(v)@ + iter_pending(it),
+{ unimplemented!() /* v.extend(it) */ }
+""" % (gen, itty, gen, itty), "glue")
     u.raw("pub uninterp spec fn spec_remap_class<'x>(m: %s, class: Seq<char>) -> Option<&'x str>;\n" % ty, "glue")
     u.raw(src.impl_header(IMPL) + "{\n", "glue")
 
@@ -75,6 +106,12 @@ def build(which="mapper"):
     u.emit(rt)
 
     # the fold over frames: assumed shim (R2), body = the replaced expression
+    rfm = src.impl_fn(IMPL, "remap_frame")
+    rfm.ret("ret")
+    rfm.contract("    ensures iter_pending(ret) == pending_frames(*self, *frame),")
+    rfm.drop_body("remap_frame and the iterator it returns are proved in unit u1/u2; here: signature only, frames it will yield are abstract")
+    u.raw("    #[verifier::external_body]\n", "glue")
+    u.emit(rfm)
     u.raw("""    #[verifier::external_body]
     fn shim_fold_frames<'a>(&'a self, trace: &StackTrace<'a>) -> (frames: Vec<StackFrame<'a>>)
         ensures frames_kept(trace.frames@, frames@),
@@ -105,6 +142,39 @@ def build(which="mapper"):
         /*@L:cause_depth_kept:C08*/ depth(ret) == depth(*trace),
     decreases depth(*trace),""")
     u.emit(f)
+    # ---------------- the body of the frames fold closure as an R5 region ----------------
+    # `|mut frames, f| { let mut peek_frames = self.remap_frame(f).peekable(); if peek_frames.peek().is_some() { frames.extend(peek_frames); } else { frames.push(f.clone()); } frames }`
+    import re
+    from vf.unit import Fragment, AnchorLost
+    fsrc = src.impl_fn(IMPL, "remap_stacktrace_typed")
+    mcl = re.search(r"\|mut frames, f\|\s*\{", fsrc.orig)
+    if not mcl:
+        raise AnchorLost("remap_stacktrace_typed: fold closure `|mut frames, f| {` not found")
+    toks = fsrc._toks()
+    from vf.rustlex import match_close
+    i = next(ix for ix, t in enumerate(toks) if t[1] == mcl.end() - 1)
+    c = toks[match_close(fsrc.orig, toks, i)][1]
+    inner = fsrc.orig[mcl.end():c]
+    a0 = mcl.end() + (len(inner) - len(inner.lstrip()))
+    b0 = mcl.end() + len(inner.rstrip())
+    rg = Fragment(u, fsrc.file, src.src, fsrc.start + a0, fsrc.start + b0, "region", "frames-fold-step")
+    rg.qualname = "%s[frames-fold-step]" % fsrc.qualname
+    rg.contracted = True
+    rg.props_all = ["C08"]
+    rg.props_safety = ["C13" if which == "mapper" else "C12"]
+    rg.replace_all_re(r"(self\.remap_frame\(\w+\))\.peekable\(\)", r"shim_peekable(\1)", "R2",
+                      why="RemappedFrameIter (verified in u1/u2) wrapped in Peekable: behind a shim that exposes the pending frames as a ghost sequence", min_count=0)
+    rg.replace_all_re(r"peek_frames\.peek\(\)\.is_some\(\)", "shim_peek_is_some(&mut peek_frames)", "R2", why="Peekable::peek().is_some() == the iterator has a pending item", min_count=0)
+    rg.replace_all_re(r"frames\.extend\(peek_frames\);", "shim_extend_frames(&mut frames, peek_frames);", "R2", why="Vec::extend(iterator) appends the pending items in order", min_count=0)
+    rg.replace_all_re(r"frames\.extend\((self\.remap_frame\(\w+\))\);", r"shim_extend_iter(&mut frames, \1);", "R2", why="Vec::extend(iterator) appends the pending items in order", min_count=0)
+    u.emit(rg, prefix="""    fn region_frames_fold_step<'a>(&'a self, frames: Vec<StackFrame<'a>>, f: &StackFrame<'a>) -> (ret: Vec<StackFrame<'a>>)
+        ensures
+            /*@L:every_frame_contributes_its_remapped_frames_or_itself:C08*/ ret@.len() >= frames@.len() + 1 && ret@.subrange(0, frames@.len() as int) == frames@,
+            /*@L:unresolved_frame_is_kept_unchanged:C08*/ pending_frames(*self, *f).len() == 0 ==> ret@ == frames@.push(*f),
+            /*@L:resolved_frame_is_replaced_by_all_its_remapped_frames:C08*/ pending_frames(*self, *f).len() > 0 ==> ret@ == frames@ + pending_frames(*self, *f),
+    {
+        let mut frames = frames;
+""", suffix="\n    }\n")
     u.raw("}\n", "glue")
     u.raw(FOOTER, "footer")
     return u
